@@ -27,7 +27,13 @@ class C13(core.Check):
             'value or the missing marker) -> every other embedding bit-identical and a copied value embedded like its '
             'source; rows permuted -> output permuted; every input tensor / ragged storage unchanged after every call. '
             'All class x stype x strategy constructions are enumerated and compared with the documented table. '
-            'Non-trivial = at least one group with >= 1 cell; distinct = distinct case hash.')
+            'Non-trivial = at least one group with >= 1 cell; distinct = distinct case hash. '
+            'Hardening families (labels scale:* / dtype:* / values:* / hist:*): ~15% of the cases carry one size from the '
+            'stress ladder of the run\'s level (rows, columns of one stype, categories / tokens of one column and a cell '
+            'holding the whole vocabulary, embedding width, channels); sentinel look-alike category / token / column names, '
+            'edge magnitudes (-1.0, 0.5, -0.0, 2^24, -2^31) and float64-only numbers; float32 numerical / int32 categorical '
+            'blocks; earlier calls on the same encoder object (eval / training-mode forward, mode flips, reset_parameters); '
+            'the tensor returned by the first call is re-inspected after all later calls (no shared output buffer).')
     partial_notes = (
         '"encoding never modifies the tensors it is given" is checked on the real objects (snapshot of every feature '
         'tensor / ragged storage before and after the call); the functional Lean model cannot express aliasing',
@@ -45,10 +51,44 @@ class C13(core.Check):
         self._req = {}
         self._viol = {}
 
+    SCALE_SHARE = {0: 0.15, 1: 0.08, 2: 0.02}
+
+    def gen_stress(self, rng):
+        """stress options of one case (harness/encgen.gen_case): scale (rows, columns of one stype, categories, cell
+        length, embedding width, channels), sentinel look-alike categories / column names, edge magnitudes and
+        float64-only values, float32 / int32 blocks, earlier calls on the same encoder object"""
+        from harness import stress
+        lvl, r = self.level, rng.random
+        o = {'special': r() < 0.2, 'edge': r() < 0.25, 'f64': r() < 0.5}
+        if r() < 0.3:
+            o['hist'] = [rng.choice(['fwd', 'fwd_row', 'fwd_empty', 'train_fwd', 'train_eval', 'reset'])
+                         for _ in range(rng.choice([1, 1, 2]))]
+        if r() < 0.15:
+            o['block_dtype'] = {s: d for s, d in (('numerical', 'f32'), ('categorical', 'i32')) if r() < 0.7}
+        if r() < self.SCALE_SHARE.get(lvl, 0.05):
+            def size(cap):
+                xs = [x for x in stress.ladder(lvl) if x <= cap]
+                return (max(xs) if r() < 0.5 else rng.choice(xs)) + rng.choice([0, 0, 1, 2])
+            dim = rng.choice(['rows', 'rows', 'ncols', 'ncat', 'width', 'ch'])
+            if dim == 'rows':
+                o['rows'] = size(260 if lvl == 0 else 2100 if lvl == 1 else 4100)
+            elif dim == 'ncols':
+                o['ncols'] = size(260 if lvl == 0 else 520)
+                o['rows'] = rng.choice([2, 3, 4])
+            elif dim == 'ncat':
+                o['ncat'] = size(260 if lvl == 0 else 1030)
+                o['cell'] = rng.choice([17, 33, 65])
+                o['rows'] = o['ncat'] + rng.randint(0, 9)
+            elif dim == 'width':
+                o['width'] = size(130 if lvl == 0 else 520)
+            else:
+                o['ch'] = size(70 if lvl == 0 else 260)
+        return o
+
     def generate(self, rng, n, tier):
         for i in range(n):
             force = G.NUM_CLASSES[i % 5] if rng.random() < 0.35 else None
-            case = G.gen_case(rng, with_eval=True, force_num_cls=force)
+            case = G.gen_case(rng, with_eval=True, force_num_cls=force, stress=self.gen_stress(rng))
             C12.restrict(case, rng)
             case.pop('batches', None)
             case['kind'] = 'cells'
@@ -76,6 +116,7 @@ class C13(core.Check):
                 snap = self.snapshot(feat)
                 try:
                     x = m(feat, names).detach()
+                    x_first = x.clone()
                     res = {'frame': fname, 'stype': s, 'shape': list(x.shape), 'data': x.double().tolist()}
                 except AssertionError:
                     x = None
@@ -92,6 +133,10 @@ class C13(core.Check):
                                                          f'the {s} features it was given', case, 'unchanged input', 'changed')
                     elif x is not None:
                         self._viol[key] = self.oracle_group(case, ds, frame, m, e, s, feat, names, x, rng, res['tol'], rel)
+                        if self._viol[key] is None and not torch.equal(torch.nan_to_num(x), torch.nan_to_num(x_first)):
+                            self._viol[key] = core.Violation(f'C13/output-overwritten/{e["cls"]}', f'{e["cls"]}: the tensor '
+                                                             'returned by the first call was changed by later calls on '
+                                                             'the same encoder', case, 'unchanged result', 'changed')
                     elif not (s == 'timestamp' and fname == 'eval'):
                         self._viol[key] = core.Violation(f'C13/asserts/{e["cls"]}', f'{e["cls"]} asserted on {fname} data', case)
         self._req[key] = reqs
@@ -160,10 +205,18 @@ class C13(core.Check):
                     hit(f'missing-zero:{cls}' + (f':{e["mode"]}' if 'mode' in e else ''))
             else:
                 # (3) with a strategy: exactly the encoding of the replacement value, which is the column's own statistic
-                imputed = self.impute(ds, frame, s, feat, names, na, miss)
+                imputed = self.impute(ds, frame, s, feat, names, na, miss, double=(s == 'numerical' and not G.is_f32(e)))
                 none = copy.deepcopy(m)
                 none.na_strategy = None
-                ximp = run(none, imputed)
+                try:
+                    ximp = run(none, imputed)
+                except AssertionError:
+                    # the encoder (with the strategy) returned embeddings for this frame, so every present cell and every
+                    # replacement value is inside its domain - and so is the frame with the replacements written in
+                    return core.Violation(f'C13/not-imputation/{cls}/{na}', f'{tag}: the frame whose missing cells were '
+                                          f'replaced by the column\'s own statistic is refused by the encoder, although the '
+                                          f'encoder with the strategy accepted the original frame (present cells were '
+                                          f'overwritten?)', case, 'an embedding', 'AssertionError')
                 if not same(x, ximp):
                     return core.Violation(f'C13/not-imputation/{cls}/{na}', f'{tag}: encoding with the strategy differs from '
                                           f'encoding (without strategy) the frame whose missing cells were replaced by '
@@ -250,7 +303,7 @@ class C13(core.Check):
                 for r in range(feat.num_rows)]
 
     @staticmethod
-    def impute(ds, frame, s, feat, names, na, miss):
+    def impute(ds, frame, s, feat, names, na, miss, double=False):
         """the frame with every missing cell replaced by the value the documentation promises, computed here from
         the dataset's statistics of THAT column (not read from the encoder)"""
         t = G.T()
@@ -262,6 +315,8 @@ class C13(core.Check):
                 return feat
             return MultiNestedTensor.from_tensor_mat([[torch.tensor(c, dtype=torch.long) for c in row] for row in cells])
         out = feat.clone()
+        if double:
+            out = out.double()          # the replacement value is the column mean itself, not its float32 rounding
         for c, name in enumerate(names):
             st = ds.col_stats[name]
             for r in range(feat.shape[0]):
@@ -364,7 +419,44 @@ class C13(core.Check):
         return None
 
     def classify(self, case, r):
-        labs = [f"rows:{case['nrows']}", f"eval-rows:{case.get('eval_nrows', 0)}", f"ch:{case['ch']}"]
+        def bucket(v):
+            for t in (16385, 4097, 2049, 1025, 513, 257, 129, 65, 33, 17):
+                if v >= t:
+                    return f'{t}+'
+            return str(v)
+        labs = [f"rows:{bucket(case['nrows'])}", f"eval-rows:{case.get('eval_nrows', 0)}", f"ch:{bucket(case['ch'])}"]
+        if case['nrows'] >= 17:
+            labs.append(f"scale:rows:{bucket(case['nrows'])}")
+        if case['ch'] >= 17:
+            labs.append(f"scale:channels:{bucket(case['ch'])}")
+        per = {}
+        for c in case['cols']:
+            per[c['stype']] = per.get(c['stype'], 0) + 1
+            if c['stype'] in ('categorical', 'multicategorical'):
+                voc = {t for v in c['values'] if v for t in (v.split(',') if c['stype'] == 'multicategorical' else [v])}
+                if len(voc) >= 17:
+                    labs.append(f"scale:categories:{c['stype']}:{bucket(len(voc))}")
+                if voc & (set(G.SPECIAL_CATS) - {'a'}):
+                    labs.append('values:sentinel-like-categories')
+                if c['stype'] == 'multicategorical' and any(v and v.count(',') >= 16 for v in c['values']):
+                    labs.append('scale:cell-length:17+')
+            if c['stype'] == 'embedding' and len(c['values'][0]) >= 17:
+                labs.append(f"scale:embedding-width:{bucket(len(c['values'][0]))}")
+            if c['stype'] == 'numerical':
+                if any(isinstance(v, float) and v in G.F64_VALUES for v in c['values']):
+                    labs.append('dtype:float64-only-values')
+                if any(isinstance(v, float) and v in G.EDGE_VALUES for v in c['values']):
+                    labs.append('values:edge-magnitudes')
+            if c['name'] in G.SPECIAL_NAMES:
+                labs.append('values:special-column-names')
+        for st, k in per.items():
+            if k >= 17:
+                labs.append(f'scale:columns:{st}:{bucket(k)}')
+        for h in case.get('hist', []):
+            labs.append(f'hist:{h}')
+        for st, d in (case.get('block_dtype') or {}).items():
+            if st in case['enc']:
+                labs.append(f'dtype:{st}:{d}')
         for s, e in case['enc'].items():
             labs.append(f"enc:{e['cls']}" + (f":{e['mode']}" if 'mode' in e else '') + f":na={e['na']}")
             labs.append(f"post:{e['post']['t']}")
